@@ -111,20 +111,8 @@ func mkBoth(h uint64, s string) key {
 		hash: true, bs: []byte(s), cmp: true}
 }
 
-// what the router looks at, as the spec's key record [t, b]
-func (k key) routeRec(op string) tr.E {
-	if op == "simple" && k.mod {
-		t := k.t
-		if t == "both" {
-			t = "hit"
-		}
-		return tr.E{"t": t, "b": tr.Limbs(k.u)}
-	}
-	if k.t == "both" {
-		return tr.E{"t": "bs", "b": tr.Ints(k.bs)}
-	}
-	return tr.E{"t": k.t, "b": k.id}
-}
+// the key as the spec's record [t, b]: type tag + identity under Go equality
+func (k key) routeRec(op string) tr.E { return tr.E{"t": k.t, "b": k.id} }
 
 func (k key) mapRec() tr.E { return tr.E{"t": k.t, "b": k.id} }
 
@@ -174,8 +162,8 @@ func (r *router) inst() *remap.ReMap {
 	return r.rm
 }
 
-func (r *router) emit(op string, krec tr.E, neg bool, h uint64, i int, note string) {
-	e := tr.E{"ev": "idx", "a": tr.E{"op": op, "k": krec, "neg": neg, "h": tr.Limbs(h)}, "r": i}
+func (r *router) emit(op string, krec tr.E, h uint64, i int, note string) {
+	e := tr.E{"ev": "idx", "a": tr.E{"op": op, "k": krec, "h": tr.Limbs(h)}, "r": i}
 	if note != "" {
 		e["note"] = note
 	}
@@ -186,7 +174,7 @@ func (r *router) emit(op string, krec tr.E, neg bool, h uint64, i int, note stri
 func (r *router) search(x uint64) {
 	rm := r.inst()
 	i, note := index(func() int { return rm.SearchIndex(x) })
-	r.emit("search", tr.E{"t": "hash", "b": tr.Limbs(x)}, false, x, i, note)
+	r.emit("search", tr.E{"t": "hash", "b": tr.Limbs(x)}, x, i, note)
 }
 
 func (r *router) simple(k key) {
@@ -201,7 +189,7 @@ func (r *router) simple(k key) {
 		}
 	}
 	i, note := index(func() int { return rm.SimpleIndex(k.v) })
-	r.emit("simple", k.routeRec("simple"), k.mod && k.neg, h, i, note)
+	r.emit("simple", k.routeRec("simple"), h, i, note)
 }
 
 func (r *router) xhash(k key) {
@@ -214,7 +202,7 @@ func (r *router) xhash(k key) {
 		tr.Fatal("harness generated a key XXHash does not support: %T", k.v)
 	}
 	i, note := index(func() int { return rm.XHashIndex(k.v) })
-	r.emit("xhash", k.routeRec("xhash"), false, h, i, note)
+	r.emit("xhash", k.routeRec("xhash"), h, i, note)
 }
 
 // boundary-biased 64-bit patterns for n shards
@@ -339,9 +327,9 @@ func routeTrace(w *tr.W, rng *rand.Rand, n, nrand int, src string) int {
 	}
 	// nil byte slice is a supported []byte
 	jobs = append(jobs, func() { r.xhash(bytesKey(nil)) })
-	// ask a quarter of everything a second time, then shuffle the lot
+	// ask half of everything a second time, then shuffle the lot
 	m := len(jobs)
-	for i := 0; i < m/4; i++ {
+	for i := 0; i < m/2; i++ {
 		jobs = append(jobs, jobs[rng.Intn(m)])
 	}
 	rng.Shuffle(len(jobs), func(i, j int) { jobs[i], jobs[j] = jobs[j], jobs[i] })
@@ -614,9 +602,9 @@ func main() {
 	flag.Parse()
 	rng := rand.New(rand.NewSource(*seed))
 
-	// shard counts: the fixed list of DESIGN.md + powers of two, a large prime, the largest the
-	// spec's modulo arithmetic takes (32767) and seeded random ones
-	counts := []int{1, 2, 3, 4, 64, 73, 211, 1000, 5, 255, 256, 4096, 10007, 32767}
+	// shard counts: the fixed list of DESIGN.md + powers of two, divisors of 2^64-1 (3, 5, 255, 65535:
+	// no remainder at the top of the hash space), large primes, and seeded random ones
+	counts := []int{1, 2, 3, 4, 64, 73, 211, 1000, 5, 255, 256, 4096, 10007, 65535, 65536, 100003}
 	for i := 0; i < *nextra; i++ {
 		counts = append(counts, 1+rng.Intn(5000))
 	}
